@@ -175,18 +175,18 @@ func (e *env) decoderChecks() {
 		counted = true
 		cas := map[string]string{"bytes": mc.Hex(b)}
 		// receiver previously holding a valid signature
-		sig, err := sr25519.NewSignatureFromBytes(validSig)
+		sig, err := sr25519.NewSignatureFromBytes(lendAs("Signature.UnmarshalBinary", validSig))
 		if err != nil {
 			w.Fail("Signature.UnmarshalBinary/valid", "reference signature rejected", cas)
 			return
 		}
-		err = sig.UnmarshalBinary(b)
+		err = sig.UnmarshalBinary(lend(b))
 		if (err == nil) != ok {
 			w.Fail("Signature.UnmarshalBinary/"+class[11:], fmt.Sprintf("UnmarshalBinary(%x) err=%v, schnorrkel accepts: %v", b, err, ok), cas)
 			return
 		}
 		var fresh sr25519.Signature
-		if err2 := fresh.UnmarshalBinary(b); (err2 == nil) != ok {
+		if err2 := fresh.UnmarshalBinary(lend(b)); (err2 == nil) != ok {
 			w.Fail("Signature.UnmarshalBinary/fresh-receiver", "fresh and used receivers disagree", cas)
 		}
 		if ok {
@@ -197,7 +197,7 @@ func (e *env) decoderChecks() {
 			if d[0]%8 == 0 {
 				rt := refsr.TranscriptBytes([]byte("ctx"), []byte("msg"))
 				want := k0.ver.Verify(rt, b)
-				got := k0.pk.Verify(sr25519.NewSigningContext([]byte("ctx")).NewTranscriptBytes([]byte("msg")), sig)
+				got := k0.pk.Verify(sr25519.NewSigningContext(lendAs("NewSigningContext", []byte("ctx"))).NewTranscriptBytes(lendAs("SigningContext.NewTranscriptBytes", []byte("msg"))), sig)
 				if got != want {
 					w.Fail("PublicKey.Verify/structured", fmt.Sprintf("Verify(%x)=%v, reference %v", b, got, want), cas)
 				}
@@ -209,7 +209,7 @@ func (e *env) decoderChecks() {
 			if sr25519.VerifSignatureInitialised(sig) || !bytes.Equal(mustMarshal(sig), neutral) {
 				w.Fail("Signature.UnmarshalBinary/receiver-after-failure", fmt.Sprintf("receiver not reset after rejecting %x", b), cas)
 			}
-			if k0.pk.Verify(sr25519.NewSigningContext([]byte("ctx")).NewTranscriptBytes([]byte("msg")), sig) {
+			if k0.pk.Verify(sr25519.NewSigningContext(lendAs("NewSigningContext", []byte("ctx"))).NewTranscriptBytes(lendAs("SigningContext.NewTranscriptBytes", []byte("msg"))), sig) {
 				w.Fail("Signature.UnmarshalBinary/receiver-after-failure", "receiver still verifies after a failed unmarshal", cas)
 			}
 		}
@@ -228,12 +228,12 @@ func (e *env) decoderChecks() {
 		w.Eval(class, !ok || bytes.Equal(p.b, zeros(32)))
 		counted = true
 		cas := map[string]string{"bytes": mc.Hex(p.b), "what": p.what}
-		pk, err := sr25519.NewPublicKeyFromBytes(k0.rpk)
+		pk, err := sr25519.NewPublicKeyFromBytes(lendAs("PublicKey.UnmarshalBinary", k0.rpk))
 		if err != nil {
 			w.Fail("PublicKey.UnmarshalBinary/valid", "reference public key rejected", cas)
 			return
 		}
-		err = pk.UnmarshalBinary(p.b)
+		err = pk.UnmarshalBinary(lend(p.b))
 		if (err == nil) != ok {
 			w.Fail("PublicKey.UnmarshalBinary/"+class[10:], fmt.Sprintf("UnmarshalBinary(%x) [%s] err=%v, RFC 9496 decodes: %v", p.b, p.what, err, ok), cas)
 			return
@@ -245,16 +245,16 @@ func (e *env) decoderChecks() {
 			// the decoded key must be usable and must not accept a foreign signature
 			rt := refsr.TranscriptBytes([]byte("ctx"), []byte("msg"))
 			want := refsr.NewVerifier(p.b).Verify(rt, validSig)
-			sig, _ := sr25519.NewSignatureFromBytes(validSig)
-			if got := pk.Verify(sr25519.NewSigningContext([]byte("ctx")).NewTranscriptBytes([]byte("msg")), sig); got != want {
+			sig, _ := sr25519.NewSignatureFromBytes(lendAs("Signature.UnmarshalBinary", validSig))
+			if got := pk.Verify(sr25519.NewSigningContext(lendAs("NewSigningContext", []byte("ctx"))).NewTranscriptBytes(lendAs("SigningContext.NewTranscriptBytes", []byte("msg"))), sig); got != want {
 				w.Fail("PublicKey.Verify/structured-key", fmt.Sprintf("Verify under key %x = %v, reference %v", p.b, got, want), cas)
 			}
 		} else {
 			if sr25519.VerifPublicKeyInitialised(pk) || !bytes.Equal(mustMarshal(pk), zeros(32)) {
 				w.Fail("PublicKey.UnmarshalBinary/receiver-after-failure", fmt.Sprintf("receiver not reset after rejecting %x", p.b), cas)
 			}
-			sig, _ := sr25519.NewSignatureFromBytes(validSig)
-			if pk.Verify(sr25519.NewSigningContext([]byte("ctx")).NewTranscriptBytes([]byte("msg")), sig) {
+			sig, _ := sr25519.NewSignatureFromBytes(lendAs("Signature.UnmarshalBinary", validSig))
+			if pk.Verify(sr25519.NewSigningContext(lendAs("NewSigningContext", []byte("ctx"))).NewTranscriptBytes(lendAs("SigningContext.NewTranscriptBytes", []byte("msg"))), sig) {
 				w.Fail("PublicKey.UnmarshalBinary/receiver-after-failure", "receiver still verifies after a failed unmarshal", cas)
 			}
 		}
@@ -282,12 +282,12 @@ func (e *env) decoderChecks() {
 		counted = true
 		cas := map[string]string{"bytes": mc.Hex(b)}
 		prev := k0.rsk.Bytes()
-		sk, err := sr25519.NewSecretKeyFromBytes(prev)
+		sk, err := sr25519.NewSecretKeyFromBytes(lendAs("SecretKey.UnmarshalBinary", prev))
 		if err != nil {
 			w.Fail("SecretKey.UnmarshalBinary/valid", "reference secret key rejected", cas)
 			return
 		}
-		err = sk.UnmarshalBinary(b)
+		err = sk.UnmarshalBinary(lend(b))
 		if (err == nil) != ok {
 			w.Fail("SecretKey.UnmarshalBinary/"+class[10:], fmt.Sprintf("UnmarshalBinary(%x) err=%v, scalar < L: %v", b, err, ok), cas)
 			return
@@ -364,12 +364,12 @@ func (e *env) decoderChecks() {
 		w.Eval(class, true)
 		counted = true
 		cas := map[string]string{"bytes": mc.Hex(b), "what": kps[i].what}
-		kp, err := sr25519.NewKeyPairFromBytes(k0.rsk.KeypairBytes())
+		kp, err := sr25519.NewKeyPairFromBytes(lendAs("KeyPair.UnmarshalBinary", k0.rsk.KeypairBytes()))
 		if err != nil {
 			w.Fail("KeyPair.UnmarshalBinary/valid", "reference key pair rejected", cas)
 			return
 		}
-		err = kp.UnmarshalBinary(b)
+		err = kp.UnmarshalBinary(lend(b))
 		if (err == nil) != ok {
 			w.Fail("KeyPair.UnmarshalBinary/"+class[10:], fmt.Sprintf("UnmarshalBinary(%x) [%s] err=%v, reference accepts: %v", b, kps[i].what, err, ok), cas)
 			return
@@ -414,17 +414,17 @@ func (e *env) decoderChecks() {
 		var err error
 		switch name {
 		case "Signature":
-			_, err = sr25519.NewSignatureFromBytes(b)
+			_, err = sr25519.NewSignatureFromBytes(lendAs("Signature.UnmarshalBinary", b))
 		case "PublicKey":
-			_, err = sr25519.NewPublicKeyFromBytes(b)
+			_, err = sr25519.NewPublicKeyFromBytes(lendAs("PublicKey.UnmarshalBinary", b))
 		case "SecretKey":
-			_, err = sr25519.NewSecretKeyFromBytes(b)
+			_, err = sr25519.NewSecretKeyFromBytes(lendAs("SecretKey.UnmarshalBinary", b))
 		case "KeyPair":
-			_, err = sr25519.NewKeyPairFromBytes(b)
+			_, err = sr25519.NewKeyPairFromBytes(lendAs("KeyPair.UnmarshalBinary", b))
 		case "MiniSecretKey":
-			_, err = sr25519.NewMiniSecretKeyFromBytes(b)
+			_, err = sr25519.NewMiniSecretKeyFromBytes(lendAs("MiniSecretKey.UnmarshalBinary", b))
 		case "SecretKeyFromEd25519":
-			_, err = sr25519.NewSecretKeyFromEd25519Bytes(b)
+			_, err = sr25519.NewSecretKeyFromEd25519Bytes(lendAs("NewSecretKeyFromEd25519Bytes", b))
 		}
 		if (err == nil) != (n == len(src)) {
 			w.Fail(name+".UnmarshalBinary/length", fmt.Sprintf("%s decoder on %d bytes (valid size %d): err=%v", name, n, len(src), err), map[string]string{"bytes": mc.Hex(b)})
@@ -442,7 +442,7 @@ func (e *env) decoderChecks() {
 		w.Eval("digest-size", !hs[i].ok)
 		panicked := func() (p bool) {
 			defer func() { p = recover() != nil }()
-			sr25519.NewSigningContext([]byte("ctx")).NewTranscriptHash(hs[i].h())
+			sr25519.NewSigningContext(lendAs("NewSigningContext", []byte("ctx"))).NewTranscriptHash(hs[i].h())
 			return false
 		}()
 		if panicked == hs[i].ok {
